@@ -6,6 +6,14 @@ import Rtp.Pred.C20
 namespace Rtp.Kinds.CoreA
 open Rtp Rtp.Proto Rtp.Model
 
+/-- the quantifier of C01 (shared by C04 and C20): a well-formed packet whose extension profile is
+    not one of the two-byte profiles with appbits (0x1001–0x100F), which `Pred.C01.extsLegal`
+    classifies as legacy like the library does (see `appbitsProfile`) -/
+def wfQ (p : Packet) : Bool := Pred.C01.wfP p && !hdrAppbits p.header
+
+theorem wfQ_wfP (p : Packet) : wfQ p = true → Pred.C01.wfP p = true := by
+  simp only [wfQ, Bool.and_eq_true]; exact fun h => h.1
+
 /-- `c01.rt  <packet> <prev bytes> => size marshal unFresh unDirty hsize hmarshal hun` -/
 def c01rt : Handler :=
   mkHandler (do let p ← rdPacket; let prev ← Rd.bytes; pure (p, prev))
@@ -14,7 +22,7 @@ def c01rt : Handler :=
         pure ({ size := size, marshal := m, unFresh := uf, unDirty := ud, hsize := hs, hmarshal := hm, hun := hu } : Pred.C01.Obs))
     (fun (p, prev) => Pred.C01.modelObs p prev)
     (fun (p, _) o => Pred.C01.pred p o)
-    (fun (p, _) => Pred.C01.wfP p)
+    (fun (p, _) => wfQ p)
 
 /-- `c04.to  <packet> <dst bytes> => size hsize marshal hmarshal pto pbuf hto hbuf` -/
 def c04to : Handler :=
@@ -25,7 +33,7 @@ def c04to : Handler :=
                 hto := hto, hbuf := hbuf } : Pred.C04.Obs))
     (fun (p, dst) => Pred.C04.modelObs p dst)
     (fun (p, dst) o => Pred.C04.pred p dst o)
-    (fun (p, _) => Pred.C01.wfP p)
+    (fun (p, _) => wfQ p)
 
 def rdNils (withPayload : Bool) : Rd Pred.C20.Nils := do
   let c ← Rd.bool
@@ -93,7 +101,7 @@ def c20clone : Handler :=
                 hovExtPl := h3, other := ot, otherMarshal := om } : Pred.C20.Obs))
     Pred.C20.modelObs
     c20predR
-    (fun x => Pred.C01.wfP x.p)
+    (fun x => wfQ x.p)
 
 
 /-- `c01.reuse  <packet> <prev bytes> => res (len(h.Extensions), len(h.CSRC))` : the RAW lengths of
@@ -110,7 +118,7 @@ def c01reuse : Handler :=
       | _ => .err .other)
     (fun (p, _) o => !Pred.C01.wfP p ||
       o == .ok ((if p.header.extension then p.header.exts.length else 0), p.header.csrc.length))
-    (fun (p, _) => Pred.C01.wfP p)
+    (fun (p, _) => wfQ p)
 
 def handlers : List (String × Handler) :=
   [("c01.reuse", c01reuse), ("c01.rt", c01rt), ("c04.to", c04to), ("c20.clone", c20clone)]
